@@ -6,8 +6,10 @@ import (
 	"sort"
 	"strings"
 
+	"github.com/pingcap/kvproto/pkg/kvrpcpb"
 	"github.com/pkg/errors"
 	tikverr "github.com/tikv/client-go/v2/error"
+	"github.com/tikv/client-go/v2/tikvrpc"
 )
 
 // ReadRec is one observed read.
@@ -282,10 +284,18 @@ func CheckHistory(txns []*TxnRec, truth *Truth, keys []string, rules map[string]
 					// a pessimistic txn that locked the key is protected from the lock's for-update ts on (the
 					// statement's locking clause); otherwise the interval starts at the start ts
 					sa, sb := a.StartTS, b.StartTS
-					if fu, ok := a.LockedKeys()[k]; ok && a.Pessimistic {
+					if a.Pessimistic {
+						fu, ok := a.LockedKeys()[k]
+						if !ok {
+							continue // a pessimistic txn is protected only on keys it locked (caller contract; TiKV runs no conflict check on the others)
+						}
 						sa = fu
 					}
-					if fu, ok := b.LockedKeys()[k]; ok && b.Pessimistic {
+					if b.Pessimistic {
+						fu, ok := b.LockedKeys()[k]
+						if !ok {
+							continue
+						}
 						sb = fu
 					}
 					if sa < ob.CommitTS && sb < oa.CommitTS {
@@ -318,4 +328,50 @@ func CheckHistory(txns []*TxnRec, truth *Truth, keys []string, rules map[string]
 		}
 	}
 	return vs
+}
+
+// ModeOf tells which commit path a transaction's prewrites took, judged from the RPC trace:
+// "none" (no prewrite), "2pc", "async", "1pc", or "async>2pc" / "1pc>2pc" / "1pc>async" when the path fell back.
+func ModeOf(entries []*Entry, startTS uint64) string {
+	first, last := "", ""
+	for _, e := range entries {
+		if e.Type != tikvrpc.CmdPrewrite {
+			continue
+		}
+		req, ok := e.Req.(*kvrpcpb.PrewriteRequest)
+		if !ok || req.StartVersion != startTS {
+			continue
+		}
+		m := "2pc"
+		if req.TryOnePc {
+			m = "1pc"
+			if resp, ok := e.Resp.(*kvrpcpb.PrewriteResponse); ok && e.Answered && resp.OnePcCommitTs == 0 && len(resp.Errors) == 0 && resp.RegionError == nil {
+				m = "2pc"
+				if req.UseAsyncCommit && resp.MinCommitTs != 0 {
+					m = "async"
+				}
+			}
+		} else if req.UseAsyncCommit {
+			m = "async"
+			if resp, ok := e.Resp.(*kvrpcpb.PrewriteResponse); ok && e.Answered && resp.MinCommitTs == 0 && len(resp.Errors) == 0 && resp.RegionError == nil {
+				m = "2pc"
+			}
+		}
+		if first == "" {
+			first = m
+			if req.TryOnePc {
+				first = "1pc"
+			} else if req.UseAsyncCommit {
+				first = "async"
+			}
+		}
+		last = m
+	}
+	if first == "" {
+		return "none"
+	}
+	if first != last {
+		return first + ">" + last
+	}
+	return first
 }
